@@ -54,6 +54,15 @@ theorem C11_gen_palette_entries : Gen.Layout.size_Palette8Bit = 256 * Gen.Layout
 
 /-! non-vacuity: a file with one palette and one 4x2 image loads, extraction of index 0 yields a bitmap, index 1 an error,
     and without the guards the fault is reachable (the primitives are not vacuous) -/
+def exArt1 : ArtFile := ⟨[List.replicate 256 ⟨1, 2, 3, 4⟩], [⟨4, 2, 2, 3, 0, 0⟩], [], 0⟩
+def outcome (r : FaultM Bytes) : Nat := match r with | .error _ => 0 | .ok (.error _) => 1 | .ok (.ok b) => 2 + b.length
+set_option maxRecDepth 100000 in
+example : outcome (extractImage exArt1 0 (zeros 1100)) = 2 + 14 + 40 + 1024 + 8 := by decide
+set_option maxRecDepth 100000 in
+example : outcome (extractImage exArt1 0 (zeros 1087)) = 1 := by decide
+example : outcome (extractImage exArt1 1 (zeros 1100)) = 1 := by decide
+/-- without the index check the access would fault: the primitive is not vacuous -/
+example : idx exArt1.imageMetas 1 = .error .vectorIndex := rfl
 example : idx ([] : List Nat) 0 = .error .vectorIndex := rfl
 example : slice [1, 2, 3] 2 2 = .error .oobRead := rfl
 example : ∃ r, bmpRows [] 0 0 0 5 = .ok r := ⟨_, rfl⟩
